@@ -18,6 +18,7 @@ FIELDS = ["id", "name"]
 GOOD = [["1", "ab"], ["2", "c"], ["3", "xyz"], ["42", "ab"], ["0", "c"], ["7", "q"], ["8", "zz"], ["9", "ab"], ["10", "b"]]
 
 
+CHECKS = [["uniq", "IsUnique", "id"], ["few names", "DistinctCount", "name <= 2"]]
 ALLOWED = [("Allowed characters", "32, 48...57, 97...122")]  # blank, digits, lower-case letters: header rows hold other characters
 
 
@@ -38,6 +39,8 @@ def build_table(header, data_rows, bad_at, bad_kind, multiline_header=False, all
             table[bad_at - 1] = ["5", "ab", "zz"]
         elif bad_kind == "blank":  # a row of empty cells only (spreadsheet formats)
             table[bad_at - 1] = ["", ""]
+        elif bad_kind == "dup":  # repeats the key of the first data row (only with the IsUnique check declared)
+            table[bad_at - 1] = [GOOD[0][0], "ab"]
         elif bad_kind == "char":  # a character outside the allowed range (only with an allowed-characters declaration)
             table[bad_at - 1] = ["5", "aB"]
     return table
@@ -45,8 +48,8 @@ def build_table(header, data_rows, bad_at, bad_kind, multiline_header=False, all
 
 def cid_file(config):
     decls = readermachine.decls_for(config)
-    rows = harness.cid_rows(config["preset"], decls, (), config["header"], line_delimiter="lf" if config["preset"] in ("delimited", "fixed") else None, extra=list(config.get("extra", ())))
-    path = os.path.join(readermachine.tmpdir(), "cid_%s_%d%s.csv" % (config["preset"], config["header"], "_allowed" if config.get("extra") else ""))
+    rows = harness.cid_rows(config["preset"], decls, config.get("checks", ()), config["header"], line_delimiter="lf" if config["preset"] in ("delimited", "fixed") else None, extra=list(config.get("extra", ())))
+    path = os.path.join(readermachine.tmpdir(), "cid_%s_%d%s.csv" % (config["preset"], config["header"], ("_allowed" if config.get("extra") else "") + ("_checks" if config.get("checks") else "")))
     if not os.path.exists(path):
         with open(path, "w", newline="", encoding="utf-8") as cid_stream:
             csv.writer(cid_stream).writerows(rows)
@@ -65,7 +68,11 @@ def judge(case, part):
     table = build_table(header, case["rows"], bad_at, bad_kind, case.get("multiline_header", False), case.get("allowed", False), case.get("blank_header", False))
     if case.get("allowed"):
         config["extra"] = ALLOWED
+    if case.get("checks"):
+        config["checks"] = CHECKS
     rejects = bad_at is not None and bad_at > header and (limit is None or bad_at <= limit)
+    if bad_kind == "dup" and bad_at - header < 2:
+        rejects = False  # no earlier data row holds the key
     tag = "%s|%%s" % case["preset"]
     part.evaluations += 1
     if bad_at is not None:
@@ -73,6 +80,22 @@ def judge(case, part):
     stored = rowmodel.stored_rows(decls[0]["fmt"], decls, table)  # fixed: padded cells; excel: rows as wide as the sheet
     data_rows = stored[header:]
     bad_index = None if bad_at is None else bad_at - header - 1
+    # which rows are rejected, and does the distinct-count check fail at the end of the data?  Only rows within the limit are validated,
+    # only validated rows reach the checks, and a row a check or field rejected is not counted.
+    rejected, seen_keys, names, end_fails, end_fails_at_first_rejection = [], set(), set(), False, False
+    for index, row in enumerate(data_rows):
+        if limit is not None and header + index + 1 > limit:
+            continue
+        if (index == bad_index and bad_kind != "dup") or (config["checks"] and row[0] in seen_keys):
+            if not rejected:
+                end_fails_at_first_rejection = bool(config["checks"]) and len(names) > 2
+            rejected.append(index)
+            continue
+        seen_keys.add(row[0])
+        names.add(row[1])
+    end_fails = bool(config["checks"]) and len(names) > 2
+    assert bool(rejected) == rejects or case["rows"] > len(GOOD), (case, rejected)
+    rejects = bool(rejected)
     # rows API, three modes
     for mode in c06.MODES:
         cid = readermachine.make_cid(config, decls)
@@ -89,18 +112,17 @@ def judge(case, part):
         part.validated += 1
         if rejects:
             if mode == "yield":
-                expected = [list(r) for r in data_rows]
-                expected[bad_index] = "err"
-                expected_raised = None
+                expected = ["err" if i in rejected else list(r) for i, r in enumerate(data_rows)]
+                expected_raised = "any" if end_fails else None
             elif mode == "continue":
-                expected = [list(r) for i, r in enumerate(data_rows) if i != bad_index]
-                expected_raised = None
+                expected = [list(r) for i, r in enumerate(data_rows) if i not in rejected]
+                expected_raised = "any" if end_fails else None
             else:
-                expected = [list(r) for r in data_rows[:bad_index]]
+                expected = [list(r) for r in data_rows[:rejected[0]]]
                 expected_raised = "any"
         else:
             expected = [list(r) for r in data_rows]
-            expected_raised = None
+            expected_raised = "any" if end_fails else None
         got_raised = None if raised is None else "any"
         part.outcome("rows:%s:%s" % (mode, "rejects" if rejects else "clean"))
         if reader_events != expected or got_raised != expected_raised:
@@ -130,20 +152,28 @@ def judge(case, part):
             part.transitions += 1
             part.validated += 1
             if rejects:
-                expected = [list(r) for r in data_rows]
                 if mode == "yield":
-                    expected[bad_index] = "err"
+                    expected = ["err" if i in rejected else list(r) for i, r in enumerate(data_rows)]
                 elif mode == "continue":
-                    del expected[bad_index]
+                    expected = [list(r) for i, r in enumerate(data_rows) if i not in rejected]
                 else:
-                    expected = expected[:bad_index]
+                    expected = [list(r) for r in data_rows[:rejected[0]]]
                 expected_raised = "any" if mode == "raise" else None
             else:
                 expected = None if pass_number == 2 else [list(r) for r in data_rows]
                 expected_raised = None
             if reader_events != expected or (None if raised is None else "any") != expected_raised:
                 part.fail(tag % ("reader-pass-%d-%s:differs" % (pass_number, mode)), case, {"rows": expected, "raised": expected_raised}, {"rows": reader_events, "raised": raised})
-        reader.close()
+        # the end-of-data verdict belongs to the last pass: it fails iff more than two names were counted in that pass
+        try:
+            reader.close()
+            closed = "ok"
+        except errors.DataError:
+            closed = "rejected"
+        expected_close = "rejected" if (end_fails_at_first_rejection if (mode == "raise" and rejects) else end_fails) else "ok"
+        part.validated += 1
+        if closed != expected_close:
+            part.fail(tag % ("reader-close-%s:%s-but-expected-%s" % (mode, closed, expected_close)), case, expected_close, closed)
     # validate API
     cid = readermachine.make_cid(config, decls)
     source, _ = readermachine.store(config, decls, table)
@@ -156,8 +186,9 @@ def judge(case, part):
         validated = "foreign:" + type(error).__name__
     part.transitions += 1
     part.validated += 1
-    if validated != ("rejected" if rejects else "ok"):
-        part.fail(tag % ("validate:%s-but-expected-%s" % (validated, "rejected" if rejects else "ok")), case, "rejected" if rejects else "ok", validated)
+    fails = rejects or end_fails
+    if validated != ("rejected" if fails else "ok"):
+        part.fail(tag % ("validate:%s-but-expected-%s" % (validated, "rejected" if fails else "ok")), case, "rejected" if fails else "ok", validated)
     # command line
     if case.get("cli", True):
         cid_path = cid_file(config)
@@ -178,8 +209,8 @@ def judge(case, part):
                 code = "foreign:" + type(error).__name__
             part.transitions += 1
             part.validated += 1
-            if code != (1 if rejects else 0):
-                part.fail(tag % ("cli:exit-%s-but-expected-%d" % (code, 1 if rejects else 0)), dict(case, options=options), 1 if rejects else 0, code)
+            if code != (1 if fails else 0):
+                part.fail(tag % ("cli:exit-%s-but-expected-%d" % (code, 1 if fails else 0)), dict(case, options=options), 1 if fails else 0, code)
 
 
 def enumerate_cases(preset, header, max_rows=6):
@@ -194,6 +225,10 @@ def enumerate_cases(preset, header, max_rows=6):
                     if preset == "fixed" and bad_at <= header and kind == "cell2":
                         pass
                     cases.append({"preset": preset, "header": header, "rows": rows, "limit": limit, "bad_at": bad_at, "bad_kind": kind})
+    # the same product under a CID with an IsUnique and a DistinctCount check: a repeated key as the bad row, and tables whose end-of-data verdict fails
+    with_checks = [dict(case, checks=True, bad_kind="dup" if case["bad_kind"] == "cell2" else case["bad_kind"]) for case in cases if case["rows"] <= 5 and case["bad_kind"] in (None, "cell", "cell2")]
+    if preset in ("ods", "excel"):
+        cases += with_checks
     if preset in ("ods", "excel"):
         # rows of empty cells: as header rows (spacer lines) and as the bad row; an xlsx sheet ends with its last non-empty row
         extra = [dict(case, blank_header=True) for case in cases if header and (case["rows"] > 0 or preset == "ods")]
@@ -208,6 +243,7 @@ def enumerate_cases(preset, header, max_rows=6):
                 cases.append({"preset": preset, "header": header, "rows": 300, "limit": limit, "bad_at": bad_at, "bad_kind": "cell", "cli": bad_at != limit + 2})
     # with an allowed-characters declaration: header rows and rows behind the limit may hold any character
     cases += [dict(case, allowed=True, bad_kind="char" if case["bad_kind"] == "cell2" else case["bad_kind"]) for case in cases if case["rows"] <= 4 and case["bad_kind"] in (None, "cell", "cell2")]
+    cases += with_checks
     if preset == "delimited" and header:
         cases += [dict(case, multiline_header=True) for case in cases if case["rows"] <= 4 and case["bad_kind"] in (None, "cell", "short") and not case.get("allowed")]
     return cases
